@@ -15,5 +15,9 @@ if ! go build -tags verif -o "$B/vcheck" ./cmd/vcheck 2>"$B/build.log"; then
   cat "$B/build.log" >&2
   exit 2
 fi
+case "$ID" in C08|C12|C15|C16|C17|C18|C19)
+  # the real command, for the deterministic slice that cross-checks the in-process driver
+  (cd /repo && go build -o "$B/gojq" ./cmd/gojq) 2>>"$B/build.log" || { echo "BUILD-ERROR property=$ID (cmd/gojq does not build)" >&2; cat "$B/build.log" >&2; exit 2; } ;;
+esac
 export VCHECK_BIN_DIR="$B"
 "$B/vcheck" run "$ID" "$TIER"
